@@ -220,6 +220,19 @@ func (ex *Exec) nodeText(pos token.Pos) string {
 // verifyFunc generates all obligations of one function under contract.
 func (w *World) verifyFunc(u *Unit, name string) (ex *Exec, err error) {
 	fs := u.FSpecs[name]
+	// renamed locals: read the contract with the names the code uses now
+	if rec := localsFor(u, name); rec != nil {
+		base := name
+		if i := strings.Index(base, "#"); i >= 0 {
+			base = base[:i]
+		}
+		if fd := u.Funcs[base]; fd != nil {
+			if m := renameMap(rec, definedNames(u, fd)); m != nil {
+				fs = renamedSpec(fs, m)
+				w.Abstr[fmt.Sprintf("contract of %s.%s read with renamed identifiers %v (same number and order of definitions as recorded)", u.Short, name, m)] = true
+			}
+		}
+	}
 	ex = newExec(w, u, name, fs)
 	defer func() {
 		if r := recover(); r != nil {
